@@ -1569,7 +1569,16 @@ sqrt_signed_int(Type& to, const Type from, Rounding_Dir dir) {
   if (CHECK_P(To_Policy::check_sqrt_neg, from < 0)) {
     return assign_nan<To_Policy>(to, V_SQRT_NEG);
   }
-  return sqrt_unsigned_int<To_Policy, From_Policy>(to, from, dir);
+  // Note: the integer square root algorithm overflows the signed type
+  // for operands in the top quarter of its range: compute on the
+  // corresponding unsigned type (the result always fits).
+  typedef typename C_Integer<Type>::other_type Unsigned_Type;
+  Unsigned_Type unsigned_to;
+  const Result r
+    = sqrt_unsigned_int<To_Policy, From_Policy>(unsigned_to,
+                                                Unsigned_Type(from), dir);
+  to = Type(unsigned_to);
+  return r;
 }
 
 template <typename To_Policy, typename From1_Policy, typename From2_Policy,
